@@ -225,11 +225,12 @@ def gen_case(rng, lattice, maxcells=40, budget=4000):
         else:
             diffc = rng.choice(["0.3e-9", "1e-9", "%.3ge-10" % rng.uniform(1, 90)])
             timest = "%.4g" % (rng.uniform(0.01, 2.5) * lmin * lmin / float(diffc))
-    if ishift == 0:
-        disps_eff = disps          # read but unused by the code
     case = dict(n=n, ishift=ishift, bcf=bcf, bcl=bcl, corrd=corrd, lens=lens, disps=disps, diffc=diffc, timest=timest,
                 lattice=lattice)
     nmix, _, _ = mixf(case_cfg(case))
+    # exact rational arithmetic inside one shift grows with nmix: keep the model evaluation affordable
+    if (lattice and (nmix > 12 or n * nmix > 300)) or (not lattice and (nmix > 6 or n * nmix > 150)):
+        return gen_case(rng, lattice, maxcells, budget)
     nm = max(1, nmix)
     smax = max(1, min(12, budget // (n * nm)))
     case["shifts"] = rng.randint(1, smax)
@@ -293,37 +294,29 @@ def near_integer(x, eps=Fr(1, 10 ** 9)):
     return abs(x - round(x)) <= eps * max(1, abs(x))
 
 
-def isqrt_up(fr_x):
-    """rational upper bound of sqrt(x) (x >= 0), relative excess < 1e-12"""
-    if fr_x <= 0:
-        return Fr(0)
-    import math
-    sc = 10 ** 60
-    v = math.isqrt(int(fr_x * sc * sc)) + 1
-    return Fr(v, sc)
-
-
 def slack(t):
-    """what one speciation may legally change in a saved element total t: the engine accepts a mass-balance
-    row when |residual| <= convergence_tolerance * t (1e-12 here) or |residual| <= sqrt(t * MIN_TOTAL)
-    (model.cpp: residuals / check_residuals), and the saved total is the species sum; plus rounding."""
+    """what one speciation may legally change in a saved element total t (float, rounded up): the engine
+    accepts a mass-balance row when |residual| <= convergence_tolerance * t (1e-12 here) or
+    |residual| <= sqrt(t * MIN_TOTAL) (model.cpp: residuals / check_residuals) and the saved total is the
+    species sum; plus rounding."""
     t = abs(t)
-    return max(t / 10 ** 12, isqrt_up(t * Fr(1, 10 ** 25))) + t / 10 ** 14
+    return (max(t * 1e-12, (t * 1e-25) ** 0.5) + t * 1e-14) * 1.000001
 
 
 def shift_slack(cfg, nmix, ms, after):
-    """propagated engine slack for one transport step, per cell: every mix run / the advective step ends
-    with a speciation of each cell; convex mixing propagates earlier slack with the same weights."""
+    """propagated engine slack for one transport step, per cell (floats): every mix run / the advective
+    step ends with a speciation of each cell; convex mixing propagates earlier slack with the same weights."""
     n = len(after)
-    # amounts during the step are between neighbours' values; use the end-of-step amounts' local maximum (3-cell window per substep)
-    e = [Fr(0)] * n
-    loc = [abs(x) for x in after]
+    e = [0.0] * n
+    loc = [abs(float(x)) * 1.000001 for x in after]
+    fms = [(float(a) * 1.000001, float(b) * 1.000001) for a, b in ms]
     steps = nmix + (1 if cfg["ishift"] != 0 else 0)
     for _ in range(steps):
-        e = mix_step(ms, Fr(0), Fr(0), e) if nmix else e
+        if nmix:
+            e = [fms[i][0] * (e[i - 1] if i else 0.0) + e[i] + fms[i][1] * (e[i + 1] if i < n - 1 else 0.0) for i in range(n)]
         loc = [max(loc[max(0, i - 1):i + 2]) for i in range(n)]
         e = [e[i] + slack(loc[i]) for i in range(n)]
-    return e
+    return [Fr(x) for x in e]
 
 
 def compare_tracer_case(case, res, collect=None):
@@ -378,6 +371,73 @@ def compare_tracer_case(case, res, collect=None):
                 if exp[i] > Fr(1, 10 ** 6):
                     worst = max(worst, d / exp[i])
     return dict(status="ok", nmix=nmix, worst=float(worst), detail="")
+
+
+# ----------------------------------------------------------------------------- Coq cases
+
+def qc(x):
+    x = Fr(x)
+    return "(%d # %d)" % (x.numerator, x.denominator) if x.numerator >= 0 else "((%d) # %d)" % (x.numerator, x.denominator)
+
+
+def qlist(xs):
+    return "[" + "; ".join(qc(x) for x in xs) + "]"
+
+
+def coq_cfg(case):
+    cells = "; ".join("mkCell %s %s" % (qc(fr(l)), qc(fr(d))) for l, d in zip(case["lens"], case["disps"]))
+    return "(mkCfg [%s] %s %s (%d)%%Z %d%%Z %d%%Z %s)" % (cells, qc(fr(case["diffc"])), qc(fr(case["timest"])), case["ishift"],
+                                                       case["bcf"], case["bcl"], "true" if case["corrd"] else "false")
+
+
+COQ_HEAD = """From Coq Require Import QArith ZArith List.
+From IPV.C11 Require Import Transport Checker.
+Import ListNotations.
+Open Scope Q_scope.
+"""
+
+
+def coq_case_term(case, nmix_reported, items, with_mirror=True):
+    """items: tuples from compare_tracer_case(collect=...)"""
+    cfg = case_cfg(case)
+    nmix, ms, _ = mixf(cfg)
+    obs = []
+    for (c, s, prev, cL, cR, o, tol) in items:
+        mirror = one_shift(cfg, nmix, ms, cL, cR, prev) if with_mirror else []
+        obs.append("mkObs %s %s %s %s %s %s" % (qc(cL), qc(cR), qlist(prev), qlist(o), qlist(tol), qlist(mirror)))
+    mm = "[" + "; ".join("(%s, %s)" % (qc(a), qc(b)) for a, b in ms) + "]" if with_mirror else "[]"
+    return "(check_case %s (%d)%%Z %s [%s])" % (coq_cfg(case), nmix_reported, mm, ";\n  ".join(obs))
+
+
+def coq_run_cases(terms, shards=6, timeout=900):
+    """terms: {key: coq term of type bool}. Evaluates them with vm_compute in `shards` parallel coqc runs.
+    returns {key: True/False/None(no answer)} and the list of raw logs of failing shards"""
+    import concurrent.futures as cf
+    keys = list(terms)
+    if not keys:
+        return {}, []
+    # balance shards by text size (a proxy for cost)
+    order = sorted(keys, key=lambda k: -len(terms[k]))
+    buckets = [[] for _ in range(max(1, min(shards, len(keys))))]
+    sizes = [0] * len(buckets)
+    for k in order:
+        i = sizes.index(min(sizes))
+        buckets[i].append(k)
+        sizes[i] += len(terms[k])
+    index = {k: n for n, k in enumerate(keys)}
+
+    def one(b):
+        txt = COQ_HEAD + "".join("Eval vm_compute in (%d%%nat, %s).\n" % (index[k], terms[k]) for k in b)
+        return vlib.coq_eval(txt, timeout=timeout)
+
+    out, logs = {k: None for k in keys}, []
+    with cf.ThreadPoolExecutor(max_workers=len(buckets)) as ex:
+        for rc, log in ex.map(one, buckets):
+            for m in re.finditer(r"=\s*\((\d+)%nat,\s*(true|false)\)", log):
+                out[keys[int(m.group(1))]] = (m.group(2) == "true")
+            if rc != 0:
+                logs.append(log[-1500:])
+    return out, logs
 
 
 def run(ctx):
